@@ -1,5 +1,5 @@
 import NomtModel.Store.ConcDisk
-import NomtModel.Store.CrashLog
+import NomtModel.Store.RecoverReal
 /-!
 # Linearisation of the concurrent disk machine
 
@@ -57,15 +57,6 @@ theorem linDRun_append (s : CState Content MetaRec WalRec LogRec) (a b : List (C
   | cons ev a ih => simp only [List.cons_append, linDRun, ih, List.append_assoc, crun_cons]
 
 /-! ## Sequential runs of pure effect lists and of blocks -/
-
-theorem run_effs (s : Exec Content MetaRec WalRec LogRec) (es : List (Eff Content MetaRec WalRec LogRec)) :
-    run s (es.map Ev.eff) = ⟨s.dur, s.vol ++ es⟩ := by
-  induction es generalizing s with
-  | nil => simp [run]
-  | cons e es ih =>
-    simp only [List.map_cons, run, List.foldl_cons] at ih ⊢
-    rw [ih]
-    simp [step]
 
 theorem step_fsync_all (d : Disk Content MetaRec WalRec LogRec) (F : List (Eff Content MetaRec WalRec LogRec)) (f : File)
     (h : ∀ e ∈ F, e.file = f) : step ⟨d, F⟩ (Ev.fsync f) = ⟨applyEffs d F, []⟩ := by
@@ -160,9 +151,6 @@ theorem isCImage_lin (d0 : Disk Content MetaRec WalRec LogRec) (ct : List (CEv C
   rw [run_lin]; exact Iff.rfl
 
 /-! ## The linearisation is made of the effects begun in the concurrent trace, each once -/
-
-def effsOf (tr : List (Ev Content MetaRec WalRec LogRec)) : List (Eff Content MetaRec WalRec LogRec) :=
-  tr.filterMap (fun ev => match ev with | .eff e => some e | .fsync _ => none)
 
 def begun (ct : List (CEv Content MetaRec WalRec LogRec)) : List (Eff Content MetaRec WalRec LogRec) :=
   ct.filterMap (fun ev => match ev with | .effBegin _ e => some e | _ => none)
